@@ -345,6 +345,7 @@ pub fn gen_median(rng: &mut Rng, tier: &Tier, acc_every: bool) -> Vec<Case> {
             }
         }
     }
+    cases.extend(small_int_cases(rng, tier, &["median"]));
     // (d) widths beyond the range of a small index type
     for &n in WIDE_WIDTHS.iter() {
         for _ in 0..tier.n(1, 3) {
@@ -357,6 +358,28 @@ pub fn gen_median(rng: &mut Rng, tier: &Tier, acc_every: bool) -> Vec<Case> {
 }
 
 pub const WIDE_WIDTHS: [usize; 4] = [255, 256, 257, 300];
+
+/// the order-only filters at `u8` and `i8`, ends of the range included
+fn small_int_cases(rng: &mut Rng, tier: &Tier, kinds: &[&str]) -> Vec<Case> {
+    let mut cases = Vec::new();
+    for (t, vals) in [("u8", [0i64, 1, 2, 127, 128, 254, 255]), ("i8", [-128i64, -127, -1, 0, 1, 126, 127])] {
+        for kind in kinds {
+            for _ in 0..tier.n(25, 300) {
+                let n = *rng.pick(&[1usize, 2, 3, 4, 5]);
+                let mut c = vec![format!("new 1 {} N={} T={}", kind, n, t)];
+                for _ in 0..rng.range(1, 3 * n as i64 + 3) {
+                    c.push(format!("f 1 {}", rng.pick(&vals)));
+                    if *kind == "median" && rng.chance(1, 3) {
+                        c.push("acc 1 min".into());
+                        c.push("acc 1 med".into());
+                    }
+                }
+                cases.push(c);
+            }
+        }
+    }
+    cases
+}
 
 /// one long run of a windowed filter at each of the wide widths
 fn wide_cases(rng: &mut Rng, tier: &Tier, kind: &str, obs: &[&str]) -> Vec<Case> {
@@ -581,6 +604,7 @@ pub fn gen_deque(rng: &mut Rng, tier: &Tier) -> Vec<Case> {
     }
     deque_inject_cases(rng, tier, "max", &mut cases);
     deque_inject_cases(rng, tier, "min", &mut cases);
+    cases.extend(small_int_cases(rng, tier, &["max", "min", "bounds"]));
     cases.extend(wide_cases(rng, tier, "max", &["time"]));
     cases.extend(wide_cases(rng, tier, "min", &["time"]));
     cases
